@@ -1,15 +1,19 @@
 (* C07 - Decode-encode reaches a fixed point in one step and loses nothing.
-   PARTIAL + one known class.  Proved: (1) the byte layer: every value the parser returns from an
-   input shorter than 2^64 bytes is in normal form (lengths, integer range, UTF-8, floats) and
-   within 256 nesting levels, and re-serialising and re-parsing it returns it unchanged UNLESS it
-   contains tag 2/3 directly over a byte string of <= 16 bytes that is not a bignum normal form
-   (finding F4, witness proved); (2) the value layer for Label, PartyInfo, CoseKey, CoseKeySet,
-   ClaimsSet: decode => encode succeeds and decodes to the same value; (3) protected headers are
-   re-emitted verbatim at every nesting level (C02), so messages round-trip their protected
-   slots.  Missing: the value-layer fixed point for unprotected Header maps (hence the message
-   types) as one theorem; covered by the correspondence run on every accepted generated input. *)
+   One known class.  Proved: (1) byte layer: every value the parser returns from an input shorter
+   than 2^64 bytes is in normal form (lengths, integer range, UTF-8, floats) and within 256 nesting
+   levels, and re-serialising and re-parsing it returns it unchanged UNLESS it contains tag 2/3
+   directly over a byte string of <= 16 bytes that is not a bignum normal form (finding F4,
+   witness proved); (2) value layer, for EVERY type: if the value-level decoder returns m then the
+   encoder succeeds on m and the decoder maps its output back to m (protected headers re-emitted
+   verbatim at every nesting level); (3) byte layer for every type from (1)+(2), under the
+   hypothesis that the re-encoded value is wire-normal.  Remaining gap, stated honestly: (3) keeps
+   "value_nf v' /\ depth v' <= 256" of the RE-ENCODED value as a hypothesis instead of deriving it
+   from (1) (it holds because the re-encoding only rearranges sub-values of the decoded input, a
+   fact that is exercised, not proved). *)
 From Coset.Model Require Import Prelude Cbor Iana Label Msg Key Cwt Context Api.
 From Coset.Proofs Require Import Head RoundTrip DecodedNf TypedRoundTrip.
+From Coset.Proofs Require HeaderRoundTrip MsgRoundTrip.
+Import MsgRoundTrip.
 Open Scope N_scope.
 
 (* what the byte parser returns is in normal form (mod the bignum-shape clause) and within the nesting budget *)
@@ -87,6 +91,112 @@ Theorem C07_claims_bytes_fixed_point :
              to_vec ClaimsSet_to_value c = Ok b'.
 Proof. exact claims_bytes_fixed_point. Qed.
 Print Assumptions C07_claims_bytes_fixed_point.
+
+(* value layer for header maps, signatures and protected headers, at every nesting budget *)
+Theorem C07_header_decode_encode_fixed_point :
+  forall n v h, header_at n v = Ok h ->
+  exists v', header_to_value h = Ok v' /\ header_at n v' = Ok h.
+Proof. exact HeaderRoundTrip.header_decode_encode_fixed_point. Qed.
+Print Assumptions C07_header_decode_encode_fixed_point.
+
+Theorem C07_signature_decode_encode_fixed_point :
+  forall n v s,
+  signature_from_value (parse_prot_at n) v = Ok s ->
+  exists v', signature_to_value s = Ok v' /\ signature_from_value (parse_prot_at n) v' = Ok s.
+Proof. exact HeaderRoundTrip.signature_decode_encode_fixed_point. Qed.
+Print Assumptions C07_signature_decode_encode_fixed_point.
+
+Theorem C07_protected_decode_encode_fixed_point :
+  forall n v p,
+  protected_from_bstr (parse_prot_at n) v = Ok p ->
+  protected_cbor_bstr p = Ok v /\ protected_from_bstr (parse_prot_at n) v = Ok p.
+Proof. exact HeaderRoundTrip.protected_decode_encode_fixed_point. Qed.
+Print Assumptions C07_protected_decode_encode_fixed_point.
+
+Theorem C07_Header_decode_encode_fixed_point :
+  forall v h, Header_from_value v = Ok h ->
+  exists v', Header_to_value h = Ok v' /\ Header_from_value v' = Ok h.
+Proof. exact HeaderRoundTrip.Header_decode_encode_fixed_point. Qed.
+Print Assumptions C07_Header_decode_encode_fixed_point.
+
+Theorem C07_CoseSignature_decode_encode_fixed_point :
+  forall v s, CoseSignature_from_value v = Ok s ->
+  exists v', CoseSignature_to_value s = Ok v' /\ CoseSignature_from_value v' = Ok s.
+Proof. exact HeaderRoundTrip.CoseSignature_decode_encode_fixed_point. Qed.
+Print Assumptions C07_CoseSignature_decode_encode_fixed_point.
+
+(* value layer for every message structure and the KDF types *)
+Theorem C07_CoseSign1_decode_encode_fixed_point :
+  forall v m, CoseSign1_from_value v = Ok m ->
+  exists v', CoseSign1_to_value m = Ok v' /\ CoseSign1_from_value v' = Ok m.
+Proof. exact MsgRoundTrip.CoseSign1_decode_encode_fixed_point. Qed.
+Print Assumptions C07_CoseSign1_decode_encode_fixed_point.
+
+Theorem C07_CoseSign_decode_encode_fixed_point :
+  forall v m, CoseSign_from_value v = Ok m ->
+  exists v', CoseSign_to_value m = Ok v' /\ CoseSign_from_value v' = Ok m.
+Proof. exact MsgRoundTrip.CoseSign_decode_encode_fixed_point. Qed.
+Print Assumptions C07_CoseSign_decode_encode_fixed_point.
+
+Theorem C07_CoseMac_decode_encode_fixed_point :
+  forall v m, CoseMac_from_value v = Ok m ->
+  exists v', CoseMac_to_value m = Ok v' /\ CoseMac_from_value v' = Ok m.
+Proof. exact MsgRoundTrip.CoseMac_decode_encode_fixed_point. Qed.
+Print Assumptions C07_CoseMac_decode_encode_fixed_point.
+
+Theorem C07_CoseMac0_decode_encode_fixed_point :
+  forall v m, CoseMac0_from_value v = Ok m ->
+  exists v', CoseMac0_to_value m = Ok v' /\ CoseMac0_from_value v' = Ok m.
+Proof. exact MsgRoundTrip.CoseMac0_decode_encode_fixed_point. Qed.
+Print Assumptions C07_CoseMac0_decode_encode_fixed_point.
+
+Theorem C07_CoseEncrypt_decode_encode_fixed_point :
+  forall v m, CoseEncrypt_from_value v = Ok m ->
+  exists v', CoseEncrypt_to_value m = Ok v' /\ CoseEncrypt_from_value v' = Ok m.
+Proof. exact MsgRoundTrip.CoseEncrypt_decode_encode_fixed_point. Qed.
+Print Assumptions C07_CoseEncrypt_decode_encode_fixed_point.
+
+Theorem C07_CoseEncrypt0_decode_encode_fixed_point :
+  forall v m, CoseEncrypt0_from_value v = Ok m ->
+  exists v', CoseEncrypt0_to_value m = Ok v' /\ CoseEncrypt0_from_value v' = Ok m.
+Proof. exact MsgRoundTrip.CoseEncrypt0_decode_encode_fixed_point. Qed.
+Print Assumptions C07_CoseEncrypt0_decode_encode_fixed_point.
+
+Theorem C07_CoseRecipient_decode_encode_fixed_point :
+  forall v r, CoseRecipient_from_value v = Ok r ->
+  exists v', CoseRecipient_to_value r = Ok v' /\ CoseRecipient_from_value v' = Ok r.
+Proof. exact MsgRoundTrip.CoseRecipient_decode_encode_fixed_point. Qed.
+Print Assumptions C07_CoseRecipient_decode_encode_fixed_point.
+
+Theorem C07_SuppPubInfo_decode_encode_fixed_point :
+  forall v s, SuppPubInfo_from_value v = Ok s ->
+  exists v', SuppPubInfo_to_value s = Ok v' /\ SuppPubInfo_from_value v' = Ok s.
+Proof. exact MsgRoundTrip.SuppPubInfo_decode_encode_fixed_point. Qed.
+Print Assumptions C07_SuppPubInfo_decode_encode_fixed_point.
+
+Theorem C07_CoseKdfContext_decode_encode_fixed_point :
+  forall v k, CoseKdfContext_from_value v = Ok k ->
+  exists v', CoseKdfContext_to_value k = Ok v' /\ CoseKdfContext_from_value v' = Ok k.
+Proof. exact MsgRoundTrip.CoseKdfContext_decode_encode_fixed_point. Qed.
+Print Assumptions C07_CoseKdfContext_decode_encode_fixed_point.
+
+(* byte level for all eleven header-carrying types: if b decodes to m and the re-encoding of m is
+   wire-normal (always true outside the known class, by C07_from_reader_output / nf_split), then
+   to_vec m = b', from_slice b' = m, and encoding again gives b' *)
+Theorem C07_messages_bytes_fixed_point :
+  bytes_fp CoseSign1_from_value CoseSign1_to_value /\
+  bytes_fp CoseSign_from_value CoseSign_to_value /\
+  bytes_fp CoseMac_from_value CoseMac_to_value /\
+  bytes_fp CoseMac0_from_value CoseMac0_to_value /\
+  bytes_fp CoseEncrypt_from_value CoseEncrypt_to_value /\
+  bytes_fp CoseEncrypt0_from_value CoseEncrypt0_to_value /\
+  bytes_fp CoseRecipient_from_value CoseRecipient_to_value /\
+  bytes_fp SuppPubInfo_from_value SuppPubInfo_to_value /\
+  bytes_fp CoseKdfContext_from_value CoseKdfContext_to_value /\
+  bytes_fp Header_from_value Header_to_value /\
+  bytes_fp CoseSignature_from_value CoseSignature_to_value.
+Proof. exact MsgRoundTrip.messages_bytes_fixed_point. Qed.
+Print Assumptions C07_messages_bytes_fixed_point.
 
 (* known finding F4: tag 2 over an indefinite-length byte string of one byte *)
 Theorem C07_short_bignum_refuted :
